@@ -320,8 +320,10 @@ def lean_int(n: int) -> str:
 
 
 def const_expr(x: float) -> str:
-    if math.isnan(x) or math.isinf(x):
-        raise NotImplementedError("non-finite constant")
+    if math.isnan(x):
+        return "CasNum.nonFinite 0"
+    if math.isinf(x):
+        return "CasNum.nonFinite %s" % lean_int(1 if x > 0 else -1)
     if x == int(x) and abs(x) < 2 ** 53:
         return "CasNum.ofInt %s" % lean_int(int(x))
     m, e = dyadic(x)
